@@ -16,6 +16,8 @@ for s in $seeds; do
         chk=${s%%-*}
         # C01-c changes a direct n-buffer function only: the job API, C01's subject, is unaffected (see DESIGN 9.6)
         [ "$s" = "C01-c" ] && chk=C09
+        # C03-g breaks segmented ChaCha20-Poly1305 encrypt only: C03's jobs are one-shot, segmentation is C10's workload
+        [ "$s" = "C03-g" ] && chk=C10
         p=$VERIF/seeded/$s/patch.diff
         [ -f "$p" ] || { echo "$s $chk NO-PATCH"; continue; }
         git -C $WT checkout -q -- . && git -C $WT apply "$p" || { echo "$s $chk PATCH-DOES-NOT-APPLY"; continue; }
